@@ -23,8 +23,9 @@ def check_upgraded(path, before_rows, before_bytes, where, need_backup=True):
             c.close()
     except sqlite3.Error as e:
         raise Violation("%s: the database cannot be read: %s" % (where, e), sig="C20 upgraded database unreadable")
-    if ver != [(2,)]:
-        raise Violation("%s: version table holds %r, expected [(2,)]" % (where, ver), sig="C20 wrong version after upgrade")
+    from .c19 import TARGETS
+    if ver != [(TARGETS["usage"],)]:
+        raise Violation("%s: version table holds %r, expected [(%d,)]" % (where, ver, TARGETS["usage"]), sig="C20 wrong version after upgrade")
     sch = dbfault.schema_of(path)
     if sch != ref_schema("usage"):
         raise Violation("%s: upgraded schema differs from a freshly created database: missing %r, unexpected %r"
